@@ -1,22 +1,63 @@
 (* C04 — stop-and-continue is invisible: split runs equal one uninterrupted run.
-   Model: theories/Interp.v (save, load, run_one, run_history).
-   PROVED here (partial): the id part of the statement for every recipe of the fragment and
-   every composition k = k1+...+km — ids resume exactly where they stopped, every run writes
-   exactly its own next block of ids, so per table the split history issues the same id set
-   1..n as any other history of the same recipe that ends with the same counters; just_once
-   bindings are not re-created by a continued run and keep table and id through the file.
-   NOT proved: row-for-row equality of split and unsplit outputs (the simulation
-   `load (save s) ~ s` over all evaluator steps, stated below as the goal).  That equality is
-   decided on every run by the differential of harness/c04.py against the implementation
-   and against this model's run_history.
+   Model: theories/Interp.v (save, load, run_one, run_history).  Proofs: proofs/ContP.v.
 
-   Goal statement (not a theorem of this file):
-     forall r ks outs, persistable r -> run_history r ks None = Ok outs ->
-       run_history r [sum ks] None = Ok [concat outs].                                   *)
+   PROVED for every recipe of the SF-core fragment that has no top-level `var` statements
+   and whose just_once rows hold only scalars at every cut ([cuts_persistable]: the documented
+   persistent state; rows holding references are the known findings K1 / K2), for every k and
+   every composition k = k1+...+km with all ki >= 1:  the concatenation of the runs' outputs
+   equals the output of the single run, and a continued run completes whenever the
+   uninterrupted run does.  The two premises are exactly the statement's "recipes whose
+   cross-iteration state is only what Snowfakery documents as persistent": a top-level
+   variable survives from one iteration to the next inside a run but not across a
+   continuation (both in the code and in the model).
+   Recipes with random functions are outside the modelled fragment; for them the id /
+   count / reference-table half of the statement is covered by the `_partial` theorems
+   below only as far as the fragment goes.                                                *)
 From Coq Require Import ZArith List Permutation.
 From SFV Require Import Base Interp.
-From SFV.P Require Import InterpP InterpHeapP IdsP RefsP OnceP.
+From SFV.P Require Import InterpP InterpHeapP IdsP RefsP OnceP ContP.
 Import ListNotations. Open Scope Z_scope. Open Scope string_scope.
+
+(* the main statement *)
+Theorem C04_split_eq_unsplit :
+  forall (r : recipe) (ks : list nat) (rowss : list (list orow)),
+    forallb is_obj (r_stmts r) = true -> all_positive ks -> ks <> [] ->
+    cuts_persistable (env_of r) (r_stmts r) ks false (init_st (env_of r)) ->
+    run_history r ks None = Ok rowss ->
+    run_history r [fold_right Nat.add 0%nat ks] None = Ok [concat rowss].
+Proof. exact split_eq_unsplit. Qed.
+Print Assumptions C04_split_eq_unsplit.
+
+(* a continued run never fails where the uninterrupted run completes *)
+Theorem C04_continuation_never_fails :
+  forall r k1 k2 sF,
+    forallb is_obj (r_stmts r) = true ->
+    run_fresh r (S k1 + k2) = Ok sF ->
+    exists s1, run_fresh r (S k1) = Ok s1 /\
+      (persistable s1 ->
+       exists rows2, run_history r [S k1; k2] None = Ok [rows_of s1; rows2] /\
+                     rows_of sF = (rows_of s1 ++ rows2)%list).
+Proof. exact continuation_never_fails. Qed.
+Print Assumptions C04_continuation_never_fails.
+
+(* the three facts the proof rests on *)
+Theorem C04_output_is_write_only :
+  forall fuel e tk s o, run fuel e tk (app_out o s) = liftA o (run fuel e tk s).
+Proof. exact run_app. Qed.
+Print Assumptions C04_output_is_write_only.
+
+Theorem C04_frames_restored :
+  forall fuel e tk s s' r,
+    run fuel e tk s = Ok (s', r) -> frames s <> [] ->
+    tl (frames s') = tl (frames s) /\ frames s' <> [] /\ (whole tk = true -> frames s' = frames s).
+Proof. exact run_frames. Qed.
+Print Assumptions C04_frames_restored.
+
+Theorem C04_load_after_save_is_identity :
+  forall e s, boundary e s -> persistable s ->
+    exists c, save s = Ok c /\ load e c = upd_out s [].
+Proof. exact save_load_id. Qed.
+Print Assumptions C04_load_after_save_is_identity.
 
 (* a continued run resumes numbering immediately after the highest id in the file *)
 Theorem C04_ids_resume_partial :
@@ -70,9 +111,24 @@ Definition ex4 : recipe :=
      SObj (Tpl "A" None (Some (FLitInt 2)) false
             [("a", FRef "jj"); ("b", FFormula [PExpr (EAdd (EAttr (EVar "jj") "n") (EVar "id"))])] [])].
 
+Example C04_ex_premises :
+  forallb is_obj (r_stmts ex4) = true /\ all_positive [1; 2]%nat.
+Proof. split; [reflexivity|repeat constructor]. Qed.
+
 Example C04_ex_split_eq_unsplit :
   match run_history ex4 [1; 2]%nat None, run_history ex4 [3]%nat None with
   | Ok split, Ok [whole] => list_eqb orow_eqb (concat split) whole
   | _, _ => false
   end = true.
 Proof. vm_compute. reflexivity. Qed.
+
+(* the semantic premise is satisfiable: at the cut of 1+2 the just_once row of ex4 holds scalars *)
+Example C04_ex_cuts_persistable :
+  cuts_persistable (env_of ex4) (r_stmts ex4) [1; 2]%nat false (init_st (env_of ex4)).
+Proof.
+  cbn [cuts_persistable]. intros s H.
+  remember (iterations 1 (env_of ex4) (r_stmts ex4) false (init_st (env_of ex4))) as res eqn:Er.
+  vm_compute in Er. subst res. injection H as <-. split.
+  - unfold persistable. cbn. intros h [<-|[<-|[]]]; eexists; split; reflexivity.
+  - intros c1 _. exact I.
+Qed.
